@@ -44,3 +44,27 @@ prop("C17",
      design_ref="DESIGN.md section 4-U2, 5-C17",
      text="From any well-formed tape state, whichever growth request fails and in whichever direction: the call either does not return (abort) or returns with an intact tape, and Kani's pointer checks show no access through a null or freed block.",
      note="Bounded in buffer size like C09. Trusted: the allocator contract (block of the requested layout or null), handle_alloc_error modelled as non-returning.")
+
+prop("C04",
+     units=[("verus", "u7_inplace", None)],
+     level="proof",
+     technique="Verus deductive proof: lock-step simulation invariant between the real InplaceInterpreter::execute_in (extracted verbatim) and a canonical Brainfuck small-step specification",
+     design_ref="DESIGN.md section 4-U7, 5-C04",
+     text="Unbounded proof for every program shorter than 2^31 bytes, every input/fault oracle and every width (generic C): each outer-loop iteration is exactly one canonical step; the event log on return is the log of the canonical run, and Ok(true) is returned only when that run has halted.",
+     note="Assumes the tape view contracts (checked, bounded, in unit u2_tape), the Context::input/output oracle contracts (u2_tape) and the CellType ring contracts (proved in u1_cell; copied verbatim). Trusted: the canonical semantics in the unit template, vstd's str::as_bytes spec, Verus+Z3. Termination of the unlimited instance rests on the lock-step argument (not machine-checked).")
+
+prop("C07",
+     units=[("verus", "u7_inplace", r"#limited")],
+     level="proof",
+     technique="Verus deductive proof of the LIMITED=true monomorphisation of the real in-place interpreter: simulation invariant + termination measure (budget, |code|+1-pc)",
+     design_ref="DESIGN.md section 4-U7, 5-C07",
+     text="In-place backend: budget-limited execution terminates (lexicographic measure), reports finished only when the canonical run halted, and its log is always a canonical prefix. Other back ends: see the units listed in the evidence.",
+     note="Proof covers the in-place interpreter. Not decided: 'effectively unlimited budget reports finished' for the compiled back ends (needs C01-C03 in full).")
+
+prop("C08",
+     units=[("verus", "u7_inplace", None), ("kani", "u2_tape", None)],
+     level="model_checking",
+     technique="Verus proof of the in-place stop path (stopped configuration, no later event) + loop-free Kani contract harnesses for Context::input/output result mapping over all reader/writer outcomes",
+     design_ref="DESIGN.md section 4-U7/U2, 5-C08",
+     text="Context::input/output map every reader/writer outcome as specified (complete, loop-free); the in-place interpreter stops at the failing operation with the canonical prefix and returns Ok (unbounded proof).",
+     note="Per-backend stop paths of the bytecode interpreter and the JIT are added by units U5/U6 when present in the evidence.")
